@@ -10,4 +10,4 @@ Extraction "extracted.ml"
   msg class_ok required_class nats_situation_permanent
   sstep srun empty_store
   backoff_withinb cb_spec_step retry_loop
-  kind_names decode check_trace check_guards check_env check_envT check_envC.
+  kind_names decode check_trace check_guards check_guards2 check_env check_envT check_envC.
